@@ -201,7 +201,7 @@ func GetBidHash(bid *preconfpb.Bid) ([]byte, error) {
 	)
 
 	bidAmt, ok := big.NewInt(0).SetString(bid.BidAmount, 10)
-	if !ok {
+	if !ok || bidAmt.Sign() < 0 || bidAmt.BitLen() > 256 {
 		return nil, errors.New("invalid bid amount")
 	}
 
@@ -244,7 +244,7 @@ func GetPreConfirmationHash(c *preconfpb.PreConfirmation) ([]byte, error) {
 	)
 
 	bidAmt, ok := big.NewInt(0).SetString(c.Bid.BidAmount, 10)
-	if !ok {
+	if !ok || bidAmt.Sign() < 0 || bidAmt.BitLen() > 256 {
 		return nil, errors.New("invalid bid amount")
 	}
 
